@@ -63,6 +63,18 @@ theorem secLaunchSuccess_next (hst : Settled d cfg.version) :
     simp only
     split <;> (try split) <;> exact h1
 
+/-- A success report records the patch that was booting as the last good one. -/
+theorem secLaunchSuccess_last (hst : Settled d cfg.version) (bp : Meta) (hb : (loadPatchesState d).booting = some bp) :
+    (loadPatchesState (secLaunchSuccess env cfg d).1).last = some bp := by
+  obtain ⟨s, hs, hv⟩ := hst
+  have hb' : (PM.new d).ps.booting = some bp := hb
+  simp only [secLaunchSuccess, loadOrNew_settled d _ s hs hv, hb']
+  have h1 : (loadPatchesState (PM.new d).recordBootSuccess.1.disk).last = some bp := by
+    rw [recordBootSuccess_coherent _ (PM.new_coherent d)]
+    unfold PM.recordBootSuccess
+    simp [hb', PM.save, deleteOlderThan_ps]
+  split <;> (try split) <;> exact h1
+
 theorem secLaunchSuccess_nobooting (hst : Settled d cfg.version) (hb : (loadPatchesState d).booting = none) :
     (secLaunchSuccess env cfg d).1 = d := by
   obtain ⟨s, hs, hv⟩ := hst
@@ -661,32 +673,28 @@ theorem step03_success (env : Env) (K : Option String) (w : World) (g : G03) (pr
         simp [G03.next, hnr, hsucc, hf]
       rw [hg', hcfg]; exact Step03.blind env K w g _ pre
     | some b' =>
-      cases hl : (postView env w .success).ps.last with
-      | none =>
-        have hg' : G03.next env g .success pre (postView env w .success) = { cfg := trackCfg g.cfg .success, good := none, blind := true } := by
-          simp [G03.next, hnr, hsucc, hf, hl]
+      have hl : (postView env w .success).ps.last = some bp := by
+        rw [post_ps, hd]; exact secLaunchSuccess_last env c w.disk hst bp hb
+      by_cases hcond : (postView env w .success).slotsValid env K bp.number = true
+      · have hg' : G03.next env g .success pre (postView env w .success) =
+            { cfg := trackCfg g.cfg .success, good := some (bp.number, b'), blind := false } := by
+          simp [G03.next, hnr, hsucc, hf, hkey, hcond]
+        rw [hg']
+        have hG : GoodD env K (step env w .success).1.disk bp.number b' :=
+          goodD_of_view env K hshow' bp.number b' bp hf hl rfl hcond
+        refine ⟨(by rw [hcfg]), ?_, (by intro h; cases h), ?_, ?_⟩
+        · intro n' b0 h; simp only [Option.some.injEq, Prod.mk.injEq] at h; obtain ⟨rfl, rfl⟩ := h; exact hG
+        · intro n b b0 h0 h1
+          simp only [Option.some.injEq, Prod.mk.injEq] at h1
+          obtain ⟨rfl, _⟩ := h1
+          apply post_fileOf
+          rw [hd, secLaunchSuccess_art env c w.disk hst bp hb]
+          exact (hgood _ b h0).1
+        · intro x c' hx _ _ _ _ hne; exact nofall _ x hx hne
+      · have hg' : G03.next env g .success pre (postView env w .success) = { cfg := trackCfg g.cfg .success, good := none, blind := true } := by
+          simp only [G03.next, hnr, hsucc, hf, hkey]
+          simp [hcond]
         rw [hg', hcfg]; exact Step03.blind env K w g _ pre
-      | some m =>
-        by_cases hcond : m.number = bp.number ∧ (postView env w .success).slotsValid env K bp.number = true
-        · have hg' : G03.next env g .success pre (postView env w .success) =
-              { cfg := trackCfg g.cfg .success, good := some (bp.number, b'), blind := false } := by
-            simp [G03.next, hnr, hsucc, hf, hl, hkey, hcond]
-          rw [hg']
-          have hG : GoodD env K (step env w .success).1.disk bp.number b' :=
-            goodD_of_view env K hshow' bp.number b' m hf hl hcond.1 hcond.2
-          refine ⟨(by rw [hcfg]), ?_, (by intro h; cases h), ?_, ?_⟩
-          · intro n' b0 h; simp only [Option.some.injEq, Prod.mk.injEq] at h; obtain ⟨rfl, rfl⟩ := h; exact hG
-          · intro n b b0 h0 h1
-            simp only [Option.some.injEq, Prod.mk.injEq] at h1
-            obtain ⟨rfl, _⟩ := h1
-            apply post_fileOf
-            rw [hd, secLaunchSuccess_art env c w.disk hst bp hb]
-            exact (hgood _ b h0).1
-          · intro x c' hx _ _ _ _ hne; exact nofall _ x hx hne
-        · have hg' : G03.next env g .success pre (postView env w .success) = { cfg := trackCfg g.cfg .success, good := none, blind := true } := by
-            simp only [G03.next, hnr, hsucc, hf, hl, hkey]
-            simp [hcond]
-          rw [hg', hcfg]; exact Step03.blind env K w g _ pre
 
 end Updater
 
